@@ -37,6 +37,9 @@ impl StateMachine<'_> {
         // proposal for more robust parsing logic.
 
         self.painter.paint_buffered_minus_and_plus_lines();
+        // These lines are not preceded by a `diff` line: a file header which the previous
+        // section still owes (e.g. of a mode-only change) is written now, with its mode info.
+        self.handle_pending_line_with_diff_name()?;
         self.state = to_state;
         if self.should_handle() {
             self.painter.emit()?;
